@@ -142,3 +142,16 @@ PROPS["C17"] = dict(
     outside="third-party Serializer/Deserializer implementations (serde's own contract is trusted); longer sequences",
     trusted=["serde's de::value deserializers (U32Deserializer, I8Deserializer, SeqDeserializer) used to feed tokens", "stub: Vec::with_capacity -> empty growing vector; Vec::shrink_to_fit -> no-op"],
 )
+
+PROPS["C18"] = dict(
+    inject=[("src/bigrand.rs", "c18/rand.rs")],
+    kani=[dict(filter_q="c18_q_", filter_t=["c18_q_", "c18_t_"], jobs=14, timeout_q=240, timeout_t=900, features="rand", tgt="rand")],
+    functions=["gen_bits", "RandBigInt::{gen_biguint,gen_bigint,gen_biguint_below,gen_biguint_range,gen_bigint_range}", "UniformBigUint/UniformBigInt::{new,new_inclusive,sample,sample_single}", "RandomBits"],
+    bounds_quick="symbolic RNG (every 32-bit word unconstrained, recorded in a ghost list); gen_biguint for bit sizes {0,1,32,33,64,65,97,128,130} (16 sizes thorough) incl. the value-stability "
+                 "clause; gen_bigint {0,1,64,65} with <= 2 redraws; gen_biguint_below for bounds of bit length {1,5,64,65} with <= 2 rejected candidates (first-candidate clause); "
+                 "range samplers (gen_*_range, Uniform*::new/sample/sample_single) on 0..2-digit bounds with gen_biguint_below under its contract: result = low + candidate and inside the range; "
+                 "empty/inverted ranges and zero bound panic; new_inclusive only ATTEMPTED in the thorough tier (high + 1 by value does not finish)",
+    outside="rejection chains longer than 2 (the loop is memoryless: one iteration from an arbitrary RNG state is the inductive step - an argument, not a verdict); range widths other than the pinned bit lengths; uniformity itself",
+    trusted=STUBS_ADDSUB + ["case-split stub: BigUint::bits pinned to the query's concrete bit length K under assume(real bits == K)",
+                            "contract stub (range harnesses): RandBigInt::gen_biguint_below -> arbitrary canonical value below the bound (the real function is decided by c18_*_below_*)", "stub: Vec::shrink_to_fit -> no-op"],
+)
